@@ -220,29 +220,33 @@ theorem labels_toBinary (m : Bqm) (l : Label) (hl : l ∈ m.labels) : l ∈ ({ m
 def ChildOK (child : Bqm → List Row) : Prop :=
   ∀ q, ∀ r ∈ child q, r.energy = q.energy r.val ∧ r.Covers q.labels
 
+/-- the contract at one problem -/
+def ChildOKAt (child : Bqm → List Row) (q : Bqm) : Prop := ∀ r ∈ child q, r.energy = q.energy r.val ∧ r.Covers q.labels
+
 theorem energy_off (m : Bqm) (x : Label → Rat) : ({ m with off := 0 } : Bqm).energy x + m.off = m.energy x := by
   simp only [Bqm.energy]; ring
 
 /-- C07 `mixin_energy_offset`: whichever single method a sampler implements, the rows returned by the
     inherited `sample(bqm)` carry the energy of the submitted `bqm` (offset included) -/
-theorem mixin_energy_offset (impl : Impl) (child : Bqm → List Row) (hc : ChildOK child) (m : Bqm) :
+theorem mixin_energy_offset_at (impl : Impl) (child : Bqm → List Row) (m : Bqm)
+    (hc : ∀ q, (q = m ∨ q = { m.toSpin with off := 0 } ∨ q = { m.toBinary with off := 0 }) → ChildOKAt child q) :
     ∀ r ∈ mixinSample impl child m, r.energy = m.energy r.val := by
   intro r hr
   cases impl with
-  | sample => exact (hc m r hr).1
+  | sample => exact (hc m (Or.inl rfl) r hr).1
   | ising =>
     simp only [mixinSample] at hr
     by_cases hs : m.spin = true
     · simp only [hs, if_true, List.mem_map] at hr
       obtain ⟨r0, hr0, rfl⟩ := hr
-      have h0 := (hc _ r0 hr0).1
+      have h0 := (hc _ (Or.inr (Or.inl rfl)) r0 hr0).1
       have hsp : m.toSpin = m := by simp [Bqm.toSpin, hs]
       show r0.energy + m.toSpin.off = m.energy r0.val
       rw [h0, energy_off, hsp]
     · have hs' : m.spin = false := by simpa using hs
       simp only [hs', Bool.false_eq_true, if_false, List.mem_map] at hr
       obtain ⟨r0, hr0, rfl⟩ := hr
-      obtain ⟨h0, hcov⟩ := hc _ r0 hr0
+      obtain ⟨h0, hcov⟩ := hc _ (Or.inr (Or.inl rfl)) r0 hr0
       show r0.energy + m.toSpin.off = m.energy (r0.toBinary m.toSpin.off).val
       rw [h0, energy_off, toSpin_energy m hs']
       apply energy_congr
@@ -253,7 +257,7 @@ theorem mixin_energy_offset (impl : Impl) (child : Bqm → List Row) (hc : Child
     by_cases hs : m.spin = true
     · simp only [hs, if_true, List.mem_map] at hr
       obtain ⟨r0, hr0, rfl⟩ := hr
-      obtain ⟨h0, hcov⟩ := hc _ r0 hr0
+      obtain ⟨h0, hcov⟩ := hc _ (Or.inr (Or.inr rfl)) r0 hr0
       show r0.energy + m.toBinary.off = m.energy (r0.toSpin m.toBinary.off).val
       rw [h0, energy_off, toBinary_energy m hs]
       apply energy_congr
@@ -262,10 +266,16 @@ theorem mixin_energy_offset (impl : Impl) (child : Bqm → List Row) (hc : Child
     · have hs' : m.spin = false := by simpa using hs
       simp only [hs', Bool.false_eq_true, if_false, List.mem_map] at hr
       obtain ⟨r0, hr0, rfl⟩ := hr
-      have h0 := (hc _ r0 hr0).1
+      have h0 := (hc _ (Or.inr (Or.inr rfl)) r0 hr0).1
       have hsp : m.toBinary = m := by simp [Bqm.toBinary, hs']
       show r0.energy + m.toBinary.off = m.energy r0.val
       rw [h0, energy_off, hsp]
+
+/-- C07 `mixin_energy_offset`: whichever single method a sampler implements, the rows returned by the
+    inherited `sample(bqm)` carry the energy of the submitted `bqm` (offset included) -/
+theorem mixin_energy_offset (impl : Impl) (child : Bqm → List Row) (hc : ChildOK child) (m : Bqm) :
+    ∀ r ∈ mixinSample impl child m, r.energy = m.energy r.val :=
+  mixin_energy_offset_at impl child m (fun q _ => hc q)
 
 theorem mixinIsing_energy (impl : Impl) (child : Bqm → List Row) (hc : ChildOK child)
     (h : List (Label × Rat)) (J : List (Label × Label × Rat)) :
